@@ -47,6 +47,31 @@ func PayloadLen(max int) *rapid.Generator[int] {
 // Payload draws n bytes; long payloads are a drawn head and tail around a drawn pattern so
 // that a 20000 byte payload costs a handful of draws (and shrinks quickly).
 func Payload(t *rapid.T, n int, label string) []byte {
+	b := payload(t, n, label)
+	// one payload in six starts or ends with a byte sequence that means something elsewhere in the
+	// format or in text handling (a random payload would hit one of them once in 2^24 draws)
+	if n >= 3 && rapid.IntRange(0, 5).Draw(t, label+"-magic?") == 0 {
+		m := rapid.SampledFrom(Magic).Draw(t, label+"-magic")
+		if len(m) <= n {
+			if rapid.Bool().Draw(t, label+"-magicAtEnd") {
+				copy(b[n-len(m):], m)
+			} else {
+				copy(b, m)
+			}
+		}
+	}
+	return b
+}
+
+// Magic: byte sequences with a meaning of their own (end-of-track event, chunk magic, status
+// bytes, byte order marks, line ends, NUL).
+var Magic = [][]byte{
+	{0xFF, 0x2F, 0x00}, {0x00, 0xFF, 0x2F, 0x00}, {0xFF, 0x2F}, {0xF7}, {0xF0}, {0xFF}, {0xF7, 0x00}, {0x00, 0xF7},
+	[]byte("MTrk"), []byte("MThd"), {0xEF, 0xBB, 0xBF}, {0xFE, 0xFF}, {0xFF, 0xFE}, {0x0A}, {0x0D, 0x0A}, {0x20}, {0x00}, {0x00, 0x00, 0x00},
+	{0x09}, {0x20, 0x20}, {0x80}, {0x81, 0x00}, {0xFF, 0x51, 0x03}, {0x90, 0x40, 0x40},
+}
+
+func payload(t *rapid.T, n int, label string) []byte {
 	if n <= 24 {
 		return rapid.SliceOfN(rapid.Byte(), n, n).Draw(t, label)
 	}
